@@ -627,6 +627,28 @@ func loadCap(ref int64) int64 {
 	return c
 }
 
+// adaptToSync turns a generated non-sweep strategy into a sweep (3 runs out of
+// 4) when the solo profile of the scenario contains synchronising statements.
+// On a tree without synchronisation in its read paths (today's) it never fires.
+func adaptToSync(st *Strategy, tasks []TaskSpec, refs map[string]unitRef) {
+	if st.Kind == "sweep" || st.Kind == "replay" || st.Resolved {
+		return
+	}
+	has := false
+	for ti := range tasks {
+		for ui := range tasks[ti].Units {
+			for site := range refs[tasks[ti].Units[ui].key()].sites {
+				if site > 0 && site < len(siteSync) && siteSync[site] {
+					has = true
+				}
+			}
+		}
+	}
+	if has && NewRng(st.Seed^0xada9).Chance(0.75) {
+		st.Kind = "sweep"
+	}
+}
+
 // resolveSweep fixes the target of a sweep strategy from the solo profile of
 // the scenario: a task (among the first nTasks tasks), one of the DISTINCT
 // sites its units visit when run alone (uniformly), and which visit.
@@ -669,7 +691,7 @@ func resolveSweep(st *Strategy, tasks []TaskSpec, refs map[string]unitRef) {
 			syncSites = append(syncSites, site)
 		}
 	}
-	if len(syncSites) > 0 && r.Chance(0.6) {
+	if len(syncSites) > 0 && r.Chance(0.8) {
 		sites = syncSites
 	}
 	st.Site = sites[r.Intn(len(sites))]
